@@ -72,6 +72,19 @@ func (c *Ctx) rulesR4resolver() {
 			if orderOnly[calleeName(&x.Call)] && len(x.Call.Args) >= 1 {
 				return fromPR(x.Call.Args[0], x, d+1)
 			}
+			// the result of a phase TargetStates was split into
+			if cal := x.Call.StaticCallee(); cal != nil && cal != ts && len(cal.Blocks) > 0 && cal.Signature.Results().Len() == 1 && c.hostedBy(cal, ts) && c.isPhaseOf(cal, ts) {
+				rs := returnsOf(cal)
+				if len(rs) == 0 {
+					return false, "it is " + render(x)
+				}
+				for _, r := range rs {
+					if ok, why := fromPR(retVals(r)[0], r, d+1); !ok {
+						return false, why
+					}
+				}
+				return true, ""
+			}
 			return false, "it is " + render(x)
 		case *ssa.UnOp:
 			if x.Op == token.MUL {
